@@ -16,15 +16,20 @@ ASSUMPTIONS = ["lossless clause: the stream is a prefix of a concatenation of sp
                "the packet if complete, otherwise everything from the boundary on is the tail"]
 
 ID_A, ID_B = 0x0822, 0x1833
+# a second registration: three IDs, two of which agree in their first octet (neighbouring APIDs of one type), and a TM/TC pair
+# of the same APID
+IDSETS = {"ab": [(PacketType.TM, True, 0x22), (PacketType.TC, True, 0x33)],
+          "near": [(PacketType.TM, True, 0x123), (PacketType.TM, True, 0x124), (PacketType.TC, True, 0x123)]}
+_cur = ["ab"]
 
 
 def ids():
-    return [PacketId(PacketType.TM, True, 0x22), PacketId(PacketType.TC, True, 0x33)]
+    return [PacketId(*t) for t in IDSETS[_cur[0]]]
 
 
 def registered(b, i):
     pid = ((b[i] << 8) | b[i + 1]) & 0x1FFF
-    return sym_or(pid == ID_A, pid == ID_B)
+    return sym_or(*[pid == ((int(t[0]) << 12) | (int(t[1]) << 11) | t[2]) for t in IDSETS[_cur[0]]])
 
 
 def ref_split_wellformed(ctx, b):
@@ -88,7 +93,8 @@ def feed(ctx, b, cuts):
     return got, q
 
 
-def h_lossless(ctx, N, cuts, twin=False):
+def h_lossless(ctx, N, cuts, twin=False, idset="ab"):
+    _cur[0] = idset
     data = ctx.octets("stream", N)
     b = items_of(data)
     want, tail = ref_split_wellformed(ctx, b)
@@ -103,6 +109,7 @@ def h_lossless(ctx, N, cuts, twin=False):
 
 
 def h_single_call(ctx, N):
+    _cur[0] = "ab"
     """one-call invariant: whatever the queue's chunking, one call returns the complete packets and leaves the tail"""
     data = ctx.octets("stream", N)
     b = items_of(data)
@@ -121,6 +128,7 @@ def h_single_call(ctx, N):
 
 
 def h_garbage(ctx, d1, g, d2, cuts):
+    _cur[0] = "ab"
     def packet(name, pid, d):
         body = ctx.octets(name, d + 1)
         return be(pid | (ctx.int(name + "_ver", 0, 7) << 13), 2) + [ctx.int(name + "_psc_hi", 0, 255), ctx.int(name + "_psc_lo", 0, 255)] \
@@ -150,6 +158,11 @@ def cases(tier):
             for k2 in range(k1, N + 1):
                 cs.append(Case("cut2-N%d-k%d-%d" % (N, k1, k2), "cut", h_lossless, dict(N=N, cuts=(k1, k2)), budget=1200,
                                bounds="every well-formed stream prefix of %d octets, cut at %d and %d" % (N, k1, k2)))
+    for N in tier_pick(tier, (7, 8, 14, 15), tuple(range(7, 20))):
+        for k in tier_pick(tier, (0, 3, 7), tuple(range(0, N + 1, 2))):
+            cs.append(Case("cut-near-N%d-k%d" % (N, k), "cut", h_lossless, dict(N=N, cuts=(min(k, N),), idset="near"), budget=1200,
+                           bounds="three registered IDs (two share their first octet, two share their APID): every well-formed stream "
+                                  "prefix of %d octets, cut at %d" % (N, min(k, N))))
     cs.append(Case("cut-twin", "cut", h_lossless, dict(N=8, cuts=(3,), twin=True), expect_violation=True, bounds="reachability twin"))
     for g in tier_pick(tier, (1, 2, 3), (1, 2, 3, 4, 5, 8)):
         for d1, d2 in ((0, 0), (1, 0)):
